@@ -19,6 +19,7 @@ pub mod c13;
 pub mod c14;
 pub mod selftest;
 pub mod c15;
+pub mod c16;
 pub mod c17;
 pub mod c18;
 pub mod c19;
@@ -39,6 +40,7 @@ pub const REGISTRY: &[(&str, &str, fn(&mut Ctx))] = &[
     ("C13", "model_checking", c13::run),
     ("C14", "model_checking", c14::run),
     ("C15", "model_checking", c15::run),
+    ("C16", "model_checking", c16::run),
     ("C17", "model_checking", c17::run),
     ("C18", "exploration", c18::run),
     ("C19", "exploration", c19::run),
@@ -57,6 +59,7 @@ pub fn replay(id: &str, case: &Value) -> Result<String, String> {
         "C13" => c13::replay(case),
         "C14" => c14::replay(case),
         "C15" => c15::replay(case),
+        "C16" => c16::replay(case),
         "C17" => c17::replay(case),
         "C18" => c18::replay(case),
         "C19" => c19::replay(case),
